@@ -219,5 +219,49 @@ void harness(void) {
         SYMX_ASSERT(memcmp(seen_batches[m], seen_batches[0], sizeof seen_batches[0]) == 0, "same batch boundaries in every I/O mode");
         SYMX_ASSERT(memcmp(seen_null[m], seen_null[0], N) == 0, "same null bitmap in every I/O mode");
     }
+#elif MODE == 3
+    /* C03: metadata and column-reader content identical in the three I/O modes (symbolic read size), checksum verification
+       on/off; zero-copy batch data stays readable after further reads until the reader is closed */
+    uint8_t kb; symx_make_symbolic(&kb, 1, "k"); symx_assume(kb >= 1 && kb <= N + 1);
+    int verify = symx_choice(2, "verify_checksums");
+    static uint8_t got_vals[3][(N + 1) * 16]; static int16_t got_defs[3][N + 1]; static int got_rows[3];
+    for (int m = 0; m < 3; m++) {
+        carquet_reader_options_t ro; carquet_reader_options_init(&ro);
+        ro.verify_checksums = verify; ro.use_mmap = (m == 2);
+        memset(&err, 0, sizeof err);
+        carquet_reader_t* r = m == 0 ? carquet_reader_open_buffer(filebuf, filelen, &ro, &err) : carquet_reader_open(PATH, &ro, &err);
+        SYMX_ASSERT(r != NULL, "file opens in every I/O mode");
+        SYMX_ASSERT(carquet_reader_num_rows(r) == N && carquet_reader_num_row_groups(r) == 1 && carquet_reader_num_columns(r) == 2, "identical metadata in every I/O mode");
+        const carquet_schema_t* sc = carquet_reader_schema(r);
+        SYMX_ASSERT(carquet_schema_num_columns(sc) == 2 && carquet_schema_find_column(sc, "x") == 0 && carquet_schema_find_column(sc, "id") == 1, "identical schema in every I/O mode");
+        carquet_column_reader_t* cr = carquet_reader_get_column(r, 0, 0, &err);
+        SYMX_ASSERT(cr != NULL, "column reader");
+        memset(got_vals[m], 0, sizeof got_vals[m]); memset(got_defs[m], 0, sizeof got_defs[m]);
+        int pos = 0, dense = 0;
+        for (int it = 0; it < N + 2 && pos < N; it++) {
+            uint8_t tmp[(N + 1) * 16]; int16_t td[N + 1];
+            int64_t n = carquet_column_read_batch(cr, tmp, kb, td, NULL);
+            SYMX_ASSERT(n > 0 && pos + n <= N, "reads make progress and stay within the chunk");
+            check_read(pos, n, tmp, td);
+            pos += (int)n;
+        }
+        got_rows[m] = pos;
+        SYMX_ASSERT(pos == N, "whole chunk delivered");
+        carquet_column_reader_free(cr);
+        /* zero-copy lifetime: take the first batch, keep its data pointer, read on, then look at it again before close */
+        carquet_batch_reader_config_t bc; carquet_batch_reader_config_init(&bc);
+        bc.batch_size = BATCH;
+        carquet_batch_reader_t* br = carquet_batch_reader_create(r, &bc, &err);
+        SYMX_ASSERT(br != NULL, "batch reader");
+        carquet_row_batch_t* b1 = NULL; carquet_row_batch_t* b2 = NULL;
+        SYMX_ASSERT(carquet_batch_reader_next(br, &b1) == CARQUET_OK && b1, "first batch");
+        const void* d1; const uint8_t* n1; int64_t nv1;
+        SYMX_ASSERT(carquet_row_batch_column(b1, 1, &d1, &n1, &nv1) == CARQUET_OK && nv1 == BATCH, "id column of the first batch");
+        (void)carquet_batch_reader_next(br, &b2);
+        for (int i = 0; i < BATCH; i++) { int32_t v; memcpy(&v, (const uint8_t*)d1 + 4 * i, 4); SYMX_ASSERT(v == 1000 + i, "data of an earlier batch is still valid after further reads"); }
+        carquet_row_batch_free(b2); carquet_row_batch_free(b1);
+        carquet_batch_reader_free(br);
+        carquet_reader_close(r);
+    }
 #endif
 }
